@@ -10,12 +10,15 @@ for l in open(log):
     m = re.match(r"(\S+) (C\d+) exit=(\d+) (\d+) violation-lines; (.*)", l)
     if not m:
         continue
-    mm = re.search(r"(C\d\d)[/-](?:r\d-)?([ab])/?$", m.group(1).rstrip("/"))
-    if not mm:
-        continue
-    d = os.path.join(V, "seeded", "%s-%s-%s" % (mm.group(1), rnd, mm.group(2)))
-    if not os.path.isdir(d):
-        d = os.path.join(V, m.group(1)) if os.path.isdir(os.path.join(V, m.group(1))) else None
+    if os.path.exists(os.path.join(m.group(1), "meta.json")) and "/seeded/" in m.group(1):
+        d = m.group(1).rstrip("/")               # a kept seed, named by its own directory
+    else:
+        mm = re.search(r"(C\d\d)[/-](?:r\d-)?([ab])/?$", m.group(1).rstrip("/"))
+        if not mm:
+            continue
+        d = os.path.join(V, "seeded", "%s-%s-%s" % (mm.group(1), rnd, mm.group(2)))
+        if not os.path.isdir(d):
+            d = None
     if d is None or not os.path.exists(os.path.join(d, "meta.json")):
         continue
     meta = json.load(open(os.path.join(d, "meta.json")))
